@@ -1,7 +1,568 @@
-//! C01: not built yet.
-use anyhow::{bail, Result};
-use serde_json::Value;
+//! C01: duke::read_class against the class facts of the file (cfkit = independent JVMS parser / assembler).
+//!
+//! ops  {"op":"read","facts":<class facts>,"enc":<cfkit Encoding>}
+//!          assemble(facts, enc) -> duke::read_class -> duke_to_facts
+//!          -> {"res":{"ok":true,"v":<facts as duke states them>},"offs":[byte offset of every instruction of
+//!              method 0],"len":code_length,"order":[names of the Code attribute's attributes in file order]}
+//!           | {"res":{"ok":false,"v":[],"err":msg}, "offs":..,"len":..,"order":..}   duke refused the file
+//!           | {"skipped":true,"why":msg}                                  the encoding cannot represent the facts
+//!      {"op":"class","id":"sample/<name>"|"sample/<name>~adapted"|"corpus/<path>"|"jdk/<entry>","enc":"file"|<standard encoding>}
+//!          the class bytes (corpus file as is, or facts assembled under the named encoding) are read by cfkit and by
+//!          duke; got carries RAW material only:
+//!          {"ok":b,"err":msg,"panic":b,"version":[major,minor],"obs":[observations on the reference facts],
+//!           "ref_hash":h,"duke_hash":h,"diffs":[[gpath,kind,"int"|"",ref,got]..]   (cfkit::duke_diff::diff; values only where both are 32-bit numbers),
+//!           "methods":[{"m":i,"raw":RAW,"duke":POS}..],                   one entry per method with code
+//!           "cover":{"ops":[mnemonics used],"attrs":["level:name"..]}}     coverage accounting only
+//!          RAW  = {"len":code_length,"offs":[..],"br":[[insn,[relative branch offsets..]]..],"exc":[[start_pc,end_pc,handler_pc]..],
+//!                  "init":[vt..],"attrs":[[name,[rows..]]..]}  rows as in the file:
+//!                  LineNumberTable [start_pc,line]; LocalVariable(Type)Table [start_pc,length,slot,name,desc|sig];
+//!                  StackMapTable [type,k,offset_delta,[vt..],[vt..]] type in same same1 chop append full;
+//!                  Runtime(In)VisibleTypeAnnotations [kind,[offset]] | [kind,[[start_pc,length,slot]..]] | [kind,[index]]
+//!          POS  = {"n":instructions,"tg":[[insn,[target index..]]..],"exc":[[start,end,handler]..],"lines":[[insn,line]..],
+//!                  "lvt":[[start,end,slot,name,desc]..],"lvtt":[..],"frames":[[at,[vt..],[vt..]]..],"tav":[..],"tai":[..]}
+//!          vt   = ["int"] .. | ["object",name] | ["uninit",offset (RAW) | index (POS)]
+//! Nothing is judged here: Trace_ClassRead runs the reader machine over RAW and compares with POS, and decides which
+//! differences are differences of facts.
+use std::collections::{BTreeMap, HashMap};
+use std::hash::{Hash, Hasher};
+use std::io::Cursor;
+use std::panic::{catch_unwind, AssertUnwindSafe};
+use std::sync::OnceLock;
+use anyhow::{bail, Context, Result};
+use serde_json::{json, Map, Value};
+use cfkit::asm::{assemble, standard_encodings, AsmError, Encoding};
+use cfkit::duke_diff::{self, normalise_message, READ_KINDS};
+use cfkit::parse::{parse_class, parse_class_facts_only, Span};
+use cfkit::proj_duke::duke_to_facts;
 
-pub fn exec(_v: &Value) -> Result<Value> { bail!("C01: driver not built") }
+// ---------------------------------------------------------------------------------------------
+// values from TLC
 
-pub fn gen(_seed: u64, _n: usize) -> Result<Vec<Value>> { bail!("C01: driver not built") }
+/// TLC prints an empty record like an empty sequence: `attrs: []` means `attrs: {}`.
+fn normalise_facts(v: &mut Value) {
+	match v {
+		Value::Array(a) => a.iter_mut().for_each(normalise_facts),
+		Value::Object(m) => {
+			for (k, x) in m.iter_mut() {
+				if k == "attrs" && x.as_array().map_or(false, |a| a.is_empty()) {
+					*x = Value::Object(Map::new());
+				}
+				normalise_facts(x);
+			}
+		},
+		_ => {},
+	}
+}
+
+fn s_str(v: &Value) -> String {
+	match v {
+		Value::String(s) => s.clone(),
+		other => other.to_string(),
+	}
+}
+
+fn vt_wire(v: &Value) -> Value {
+	match v {
+		Value::String(s) => json!([s]),
+		Value::Object(m) => {
+			if let Some(n) = m.get("object") { json!(["object", s_str(n)]) }
+			else if let Some(i) = m.get("uninitialized") { json!(["uninit", i]) }
+			else { json!(["?"]) }
+		},
+		_ => json!(["?"]),
+	}
+}
+fn vts_wire(v: Option<&Value>) -> Value {
+	Value::Array(v.and_then(Value::as_array).map(|a| a.iter().map(vt_wire).collect()).unwrap_or_default())
+}
+
+fn read_duke(bytes: &[u8]) -> std::result::Result<std::result::Result<duke::tree::class::ClassFile, String>, String> {
+	match catch_unwind(AssertUnwindSafe(|| duke::read_class(&mut Cursor::new(bytes)))) {
+		Ok(Ok(c)) => Ok(Ok(c)),
+		Ok(Err(e)) => Ok(Err(format!("{e:#}"))),
+		Err(p) => Err(p.downcast_ref::<String>().cloned().or_else(|| p.downcast_ref::<&str>().map(|s| s.to_string())).unwrap_or_default()),
+	}
+}
+
+fn project(tree: &duke::tree::class::ClassFile) -> Value {
+	match catch_unwind(AssertUnwindSafe(|| duke_to_facts(tree))) {
+		Ok(Ok(v)) => v,
+		// the tree is not a class description (label attached twice, referenced but attached nowhere, ...): data
+		Ok(Err(e)) => json!({"proj_error": e.0}),
+		Err(_) => json!({"proj_error": "panic in the projection"}),
+	}
+}
+
+pub fn exec(v: &Value) -> Result<Value> {
+	match v["op"].as_str().context("op")? {
+		"read" => exec_read(v),
+		"class" => exec_class(v),
+		op => bail!("C01: unknown op {op}"),
+	}
+}
+
+fn exec_read(v: &Value) -> Result<Value> {
+	let mut facts = v["facts"].clone();
+	normalise_facts(&mut facts);
+	let enc: Encoding = serde_json::from_value(v["enc"].clone()).context("enc")?;
+	let bytes = match assemble(&facts, &enc) {
+		Ok(b) => b,
+		Err(AsmError::Unencodable(m)) => return Ok(json!({"skipped": true, "why": m})),
+		Err(AsmError::Invalid(m)) => bail!("C01: the specification emitted facts the assembler calls invalid: {m}"),
+	};
+	let parsed = parse_class(&bytes).map_err(|e| anyhow::anyhow!("C01: cfkit rejects its own output: {e}"))?;
+	if parsed.facts != facts {
+		bail!("C01: cfkit does not read back the facts it assembled (facts from TLC not canonical?): {:?}",
+			duke_diff::diff(&facts, &parsed.facts, READ_KINDS).iter().map(|d| format!("{} {}", d.kind, d.path)).collect::<Vec<_>>());
+	}
+	let lay = parsed.layout.as_array().and_then(|l| l.iter().find(|e| e["method"] == json!(0))).cloned().unwrap_or(json!({"offsets": [], "code_length": 0}));
+	let mut order = Vec::new();
+	for s in &parsed.spans {
+		if s.role == "attr_name" && s.path.starts_with("method[0].Code.attr[") {
+			if let Some(name) = utf8_at(&parsed.spans, &bytes, be(&bytes, s) as usize) { order.push(Value::String(name)); }
+		}
+	}
+	let res = match duke::read_class(&mut Cursor::new(&bytes[..])) {
+		Ok(tree) => json!({"ok": true, "v": project(&tree)}),
+		Err(e) => json!({"ok": false, "v": [], "err": normalise_message(&format!("{e:#}"))}),
+	};
+	Ok(json!({"res": res, "offs": lay["offsets"], "len": lay["code_length"], "order": order}))
+}
+
+// ---------------------------------------------------------------------------------------------
+// inputs by id
+
+fn corpus() -> &'static HashMap<String, Vec<u8>> {
+	static C: OnceLock<HashMap<String, Vec<u8>>> = OnceLock::new();
+	C.get_or_init(|| {
+		cfkit::corpus::corpus_classes("thorough").into_iter()
+			.map(|(id, b)| (if id.starts_with("jdk/") { id } else { format!("corpus/{id}") }, b)).collect()
+	})
+}
+fn samples() -> &'static BTreeMap<String, Value> {
+	static S: OnceLock<BTreeMap<String, Value>> = OnceLock::new();
+	S.get_or_init(|| {
+		let mut m: BTreeMap<String, Value> = cfkit::samples::sample_classes().into_iter().collect();
+		m.insert("kitchen_sink".into(), cfkit::samples::kitchen_sink_facts());
+		m
+	})
+}
+fn encoding(name: &str) -> Result<Encoding> {
+	standard_encodings().into_iter().find(|(n, _)| *n == name).map(|(_, e)| e).with_context(|| format!("no standard encoding {name}"))
+}
+fn adapted(facts: &Value) -> Value {
+	let mut a = facts.clone();
+	duke_diff::avoid_code_end(&mut a);
+	duke_diff::avoid_empty_member_names(&mut a);
+	duke_diff::avoid_future_version(&mut a);
+	a
+}
+
+/// The bytes of a class id under an encoding name; None = the encoding cannot represent the class.
+fn class_bytes(id: &str, enc: &str) -> Result<Option<Vec<u8>>> {
+	let facts = if let Some(name) = id.strip_prefix("sample/") {
+		let (name, adapt) = match name.strip_suffix("~adapted") { Some(n) => (n, true), None => (name, false) };
+		let f = samples().get(name).with_context(|| format!("no sample {name}"))?;
+		if adapt { adapted(f) } else { f.clone() }
+	} else {
+		let b = corpus().get(id).with_context(|| format!("no corpus class {id}"))?;
+		if enc == "file" { return Ok(Some(b.clone())); }
+		parse_class_facts_only(b).map_err(|e| anyhow::anyhow!("cfkit rejects corpus class {id}: {e}"))?.facts
+	};
+	match assemble(&facts, &encoding(if enc == "file" { "default" } else { enc })?) {
+		Ok(b) => Ok(Some(b)),
+		Err(AsmError::Unencodable(_)) => Ok(None),
+		Err(AsmError::Invalid(m)) => bail!("C01: facts of {id} invalid: {m}"),
+	}
+}
+
+// ---------------------------------------------------------------------------------------------
+// raw structure from the spans of the reference parser
+
+fn be(bytes: &[u8], s: &Span) -> u64 {
+	bytes[s.off..s.off + s.len].iter().fold(0u64, |a, b| (a << 8) | *b as u64)
+}
+fn signed(bytes: &[u8], s: &Span) -> i64 {
+	match s.len { 2 => be(bytes, s) as u16 as i16 as i64, 4 => be(bytes, s) as u32 as i32 as i64, _ => be(bytes, s) as i64 }
+}
+fn utf8_at(spans: &[Span], bytes: &[u8], idx: usize) -> Option<String> {
+	let path = format!("cp[{idx}]");
+	let s = spans.iter().find(|s| s.path == path && s.role == "cp_utf8_bytes");
+	match s {
+		Some(s) => cfkit::facts::decode_mutf8(&bytes[s.off..s.off + s.len]).ok().map(|u| s_str(&cfkit::facts::s_from_units(&u))),
+		// zero-length Utf8 entries produce no bytes span
+		None => spans.iter().any(|s| s.path == path && s.role == "cp_utf8_len").then(String::new),
+	}
+}
+
+struct PoolView { utf8: HashMap<usize, String>, class: HashMap<usize, usize> }
+impl PoolView {
+	fn new(spans: &[Span], bytes: &[u8]) -> PoolView {
+		let mut p = PoolView { utf8: HashMap::new(), class: HashMap::new() };
+		for s in spans {
+			if !s.path.starts_with("cp[") { if s.path != "class" { break; } else { continue; } }
+			let idx: usize = s.path[3..s.path.len() - 1].parse().unwrap_or(0);
+			match s.role.as_str() {
+				"cp_utf8_len" => { p.utf8.entry(idx).or_default(); },
+				"cp_utf8_bytes" => {
+					let v = cfkit::facts::decode_mutf8(&bytes[s.off..s.off + s.len]).map(|u| s_str(&cfkit::facts::s_from_units(&u))).unwrap_or_default();
+					p.utf8.insert(idx, v);
+				},
+				"cp_index:Class.name" => { p.class.insert(idx, be(bytes, s) as usize); },
+				_ => {},
+			}
+		}
+		p
+	}
+	fn utf8(&self, i: u64) -> Value { json!(self.utf8.get(&(i as usize)).cloned().unwrap_or_else(|| format!("?cp{i}"))) }
+	fn class(&self, i: u64) -> Value { self.class.get(&(i as usize)).map(|n| self.utf8(*n as u64)).unwrap_or_else(|| json!(format!("?cp{i}"))) }
+}
+
+const VT_NAMES: [&str; 7] = ["top", "int", "float", "double", "long", "null", "uninitialized_this"];
+
+/// Token stream over the spans of one attribute body.
+struct Toks<'a> { spans: &'a [Span], bytes: &'a [u8], i: usize }
+impl<'a> Toks<'a> {
+	fn peek(&self) -> Option<&'a Span> { self.spans.get(self.i) }
+	fn next(&mut self, role: &str) -> Result<u64> {
+		let s = self.spans.get(self.i).with_context(|| format!("span stream ended, wanted {role}"))?;
+		if s.role != role { bail!("span stream: wanted {role}, found {} at {}", s.role, s.path); }
+		self.i += 1;
+		Ok(be(self.bytes, s))
+	}
+	fn vt(&mut self, pool: &PoolView) -> Result<Value> {
+		let tag = self.next("vt_tag")?;
+		Ok(match tag {
+			0..=6 => json!([VT_NAMES[tag as usize]]),
+			7 => json!(["object", pool.class(self.next("vt_object:cp:Class")?)]),
+			_ => json!(["uninit", self.next("vt_uninit_offset")?]),
+		})
+	}
+	fn vts(&mut self, n: u64, pool: &PoolView) -> Result<Value> {
+		let mut v = Vec::new();
+		for _ in 0..n { v.push(self.vt(pool)?); }
+		Ok(Value::Array(v))
+	}
+}
+
+fn raw_attr(name: &str, body: &[Span], bytes: &[u8], pool: &PoolView) -> Result<Vec<Value>> {
+	let mut t = Toks { spans: body, bytes, i: 0 };
+	let mut rows = Vec::new();
+	match name {
+		"LineNumberTable" => {
+			for _ in 0..t.next("lnt_count")? { rows.push(json!([t.next("lnt_start_pc")?, t.next("lnt_line")?])); }
+		},
+		"LocalVariableTable" => {
+			for _ in 0..t.next("lvt_count")? {
+				let (s, l, n, d, x) = (t.next("lvt_start_pc")?, t.next("lvt_length")?, t.next("lvt_name:cp:Utf8")?, t.next("lvt_descriptor:cp:Utf8")?, t.next("lvt_index")?);
+				rows.push(json!([s, l, x, pool.utf8(n), pool.utf8(d)]));
+			}
+		},
+		"LocalVariableTypeTable" => {
+			for _ in 0..t.next("lvtt_count")? {
+				let (s, l, n, d, x) = (t.next("lvtt_start_pc")?, t.next("lvtt_length")?, t.next("lvtt_name:cp:Utf8")?, t.next("lvtt_signature:cp:Utf8")?, t.next("lvtt_index")?);
+				rows.push(json!([s, l, x, pool.utf8(n), pool.utf8(d)]));
+			}
+		},
+		"StackMapTable" => {
+			for _ in 0..t.next("smt_count")? {
+				let ft = t.next("frame_type")?;
+				let e = json!([]);
+				rows.push(match ft {
+					0..=63 => json!(["same", 0, ft, e, e]),
+					64..=127 => json!(["same1", 0, ft - 64, e, [t.vt(pool)?]]),
+					247 => { let d = t.next("frame_offset_delta")?; json!(["same1", 0, d, e, [t.vt(pool)?]]) },
+					248..=250 => json!(["chop", 251 - ft, t.next("frame_offset_delta")?, e, e]),
+					251 => json!(["same", 0, t.next("frame_offset_delta")?, e, e]),
+					252..=254 => { let d = t.next("frame_offset_delta")?; json!(["append", ft - 251, d, t.vts(ft - 251, pool)?, e]) },
+					_ => {
+						let d = t.next("frame_offset_delta")?;
+						let nl = t.next("frame_num_locals")?;
+						let l = t.vts(nl, pool)?;
+						let ns = t.next("frame_num_stack")?;
+						json!(["full", 0, d, l, t.vts(ns, pool)?])
+					},
+				});
+			}
+		},
+		"RuntimeVisibleTypeAnnotations" | "RuntimeInvisibleTypeAnnotations" => {
+			let n = t.next("ta_count")?;
+			for _ in 0..n {
+				let tt = t.next("ta_target_type")?;
+				let kind = ta_kind(tt);
+				rows.push(match tt {
+					0x40 | 0x41 => {
+						let mut tab = Vec::new();
+						for _ in 0..t.next("ta_table_count")? { tab.push(json!([t.next("ta_start_pc")?, t.next("ta_length")?, t.next("ta_index")?])); }
+						json!([kind, tab])
+					},
+					0x42 => json!([kind, [t.next("ta_index")?]]),
+					_ => json!([kind, [t.next("ta_offset")?]]),
+				});
+				// the rest of the annotation (type argument index, path, type, pairs) carries no code position
+				let anno = t.spans.get(t.i - 1).map(|s| anno_prefix(&s.path)).unwrap_or_default();
+				while t.peek().map_or(false, |s| s.path.starts_with(&anno)) { t.i += 1; }
+			}
+		},
+		_ => {},
+	}
+	Ok(rows)
+}
+
+const TA_KINDS: [(u64, &str); 10] = [(0x40, "local_variable"), (0x41, "resource_variable"), (0x42, "exception_parameter"), (0x43, "instanceof"), (0x44, "new"),
+	(0x45, "constructor_reference"), (0x46, "method_reference"), (0x47, "cast"), (0x48, "constructor_invocation_type_argument"), (0x49, "method_invocation_type_argument")];
+fn ta_kind(tt: u64) -> &'static str {
+	match tt { 0x4a => "constructor_reference_type_argument", 0x4b => "method_reference_type_argument", _ => TA_KINDS.iter().find(|(c, _)| *c == tt).map(|(_, k)| *k).unwrap_or("?") }
+}
+/// `...anno[3]` prefix (with the closing bracket) of a span path inside a type annotation.
+fn anno_prefix(path: &str) -> String {
+	match path.rfind(".anno[") {
+		Some(p) => match path[p..].find(']') { Some(q) => path[..p + q + 1].to_string(), None => path.to_string() },
+		None => path.to_string(),
+	}
+}
+
+/// RAW of method `m` (its first Code attribute).
+fn raw_method(m: usize, lay: &Value, spans: &[Span], bytes: &[u8], pool: &PoolView, init: Value) -> Result<Value> {
+	let base = format!("method[{m}].Code");
+	let code: Vec<&Span> = spans.iter().filter(|s| s.path.starts_with(&base) && s.path[base.len()..].starts_with(|c| c == '.' )).collect();
+	let mut br: Vec<Value> = Vec::new();
+	let mut exc: Vec<Value> = Vec::new();
+	let mut attrs: Vec<Value> = Vec::new();
+	let mut k = 0;
+	while k < code.len() {
+		let s = code[k];
+		let rest = &s.path[base.len() + 1..];
+		if let Some(r) = rest.strip_prefix("insn[") {
+			if s.class == "branch" {
+				let i: u64 = r[..r.find(']').unwrap_or(0)].parse().unwrap_or(0);
+				match br.last_mut() {
+					Some(Value::Array(e)) if e[0] == json!(i) => { if let Value::Array(l) = &mut e[1] { l.push(json!(signed(bytes, s))); } },
+					_ => br.push(json!([i, [signed(bytes, s)]])),
+				}
+			}
+			k += 1;
+		} else if rest.starts_with("exc[") {
+			if s.role == "exc_start_pc" {
+				exc.push(json!([be(bytes, s), be(bytes, code[k + 1]), be(bytes, code[k + 2])]));
+			}
+			k += 1;
+		} else if rest.starts_with("attr[") {
+			if s.role != "attr_name" { k += 1; continue; }
+			let name = pool.utf8(be(bytes, s));
+			let apath = &s.path;
+			// the body spans: everything whose path starts with "<apath>:" (recognised attributes)
+			let pre = format!("{apath}:");
+			let mut j = k + 2;
+			let from = j;
+			while j < code.len() && code[j].path.starts_with(&pre) { j += 1; }
+			let body: Vec<Span> = code[from..j].iter().map(|s| (*s).clone()).collect();
+			let rows = raw_attr(name.as_str().unwrap_or(""), &body, bytes, pool)?;
+			attrs.push(json!([name, rows]));
+			k = j.max(k + 1);
+		} else {
+			k += 1;
+		}
+	}
+	Ok(json!({"len": lay["code_length"], "offs": lay["offsets"], "br": br, "exc": exc, "init": init, "attrs": attrs}))
+}
+
+// ---------------------------------------------------------------------------------------------
+// position structure of facts (reshaping only)
+
+fn pos_ta(list: Option<&Value>) -> Value {
+	let mut out = Vec::new();
+	for a in list.and_then(Value::as_array).map(|a| a.as_slice()).unwrap_or(&[]) {
+		let t = &a["target"];
+		let kind = t["kind"].clone();
+		out.push(if let Some(tab) = t.get("table").and_then(Value::as_array) {
+			json!([kind, tab.iter().map(|r| json!([r["start"], r["end"], r["slot"]])).collect::<Vec<_>>()])
+		} else if let Some(i) = t.get("insn") {
+			json!([kind, [i]])
+		} else {
+			json!([kind, [t["index"]]])
+		});
+	}
+	Value::Array(out)
+}
+
+fn pos_code(code: Option<&Value>) -> Value {
+	let Some(c) = code.filter(|c| c.get("insns").is_some()) else {
+		return json!({"n": -1, "tg": [], "exc": [], "lines": [], "lvt": [], "lvtt": [], "frames": [], "tav": [], "tai": []});
+	};
+	let insns = c["insns"].as_array().cloned().unwrap_or_default();
+	let mut tg = Vec::new();
+	for (i, x) in insns.iter().enumerate() {
+		if let Some(t) = x.get("target") {
+			tg.push(json!([i, [t]]));
+		} else if let Some(d) = x.get("default") {
+			let mut l = vec![d.clone()];
+			if let Some(ts) = x.get("targets").and_then(Value::as_array) { l.extend(ts.iter().cloned()); }
+			if let Some(ps) = x.get("pairs").and_then(Value::as_array) { l.extend(ps.iter().map(|p| p[1].clone())); }
+			tg.push(json!([i, l]));
+		}
+	}
+	let a = &c["attrs"];
+	let rows = |key: &str, d: &str| -> Value {
+		Value::Array(a.get(key).and_then(Value::as_array).map(|l| l.iter().map(|r| json!([r["start"], r["end"], r["slot"], s_str(&r["name"]), s_str(&r[d])])).collect()).unwrap_or_default())
+	};
+	json!({
+		"n": insns.len(), "tg": tg,
+		"exc": c["exceptions"].as_array().map(|l| l.iter().map(|r| json!([r["start"], r["end"], r["handler"]])).collect::<Vec<_>>()).unwrap_or_default(),
+		"lines": a.get("LineNumberTable").cloned().unwrap_or(json!([])),
+		"lvt": rows("LocalVariableTable", "desc"), "lvtt": rows("LocalVariableTypeTable", "sig"),
+		"frames": a.get("StackMapTable").and_then(Value::as_array).map(|l| l.iter().map(|f| json!([f["at"], vts_wire(f.get("locals")), vts_wire(f.get("stack"))])).collect::<Vec<_>>()).unwrap_or_default(),
+		"tav": pos_ta(a.get("RuntimeVisibleTypeAnnotations")), "tai": pos_ta(a.get("RuntimeInvisibleTypeAnnotations")),
+	})
+}
+
+// ---------------------------------------------------------------------------------------------
+// observations on the reference facts (the specification decides what they mean)
+
+fn observe(v: &Value, obs: &mut Vec<String>) {
+	match v {
+		Value::Array(a) => a.iter().for_each(|x| observe(x, obs)),
+		Value::Object(m) => {
+			if m.contains_key("dup") && m.get("dup").map_or(false, Value::is_object) { obs.push("duplicate-attribute".into()); }
+			if let Some(Value::Object(h)) = m.get("SourceDebugExtension") { if h.contains_key("hex") { obs.push("source-debug-extension-not-mutf8".into()); } }
+			m.values().for_each(|x| observe(x, obs));
+		},
+		_ => {},
+	}
+}
+
+/// A value the specification may calculate with: a number that fits 32 bits.
+fn small_int(v: &Option<Value>) -> Option<i64> {
+	match v {
+		Some(Value::Number(n)) => n.as_i64().filter(|i| i.abs() < (1 << 31)),
+		_ => None,
+	}
+}
+
+/// Coverage accounting only: the opcodes and attribute names (with their level) a class uses.
+fn cover(facts: &Value) -> Value {
+	fn attrs(level: &str, a: Option<&Value>, out: &mut std::collections::BTreeSet<String>) {
+		if let Some(Value::Object(m)) = a { for k in m.keys() { out.insert(format!("{level}:{k}")); } }
+	}
+	let mut ops = std::collections::BTreeSet::new();
+	let mut at = std::collections::BTreeSet::new();
+	attrs("class", facts.get("attrs"), &mut at);
+	for c in facts["attrs"].get("Record").and_then(Value::as_array).map(|a| a.as_slice()).unwrap_or(&[]) { attrs("record", c.get("attrs"), &mut at); }
+	for f in facts["fields"].as_array().map(|a| a.as_slice()).unwrap_or(&[]) { attrs("field", f.get("attrs"), &mut at); }
+	for m in facts["methods"].as_array().map(|a| a.as_slice()).unwrap_or(&[]) {
+		attrs("method", m.get("attrs"), &mut at);
+		if let Some(c) = m["attrs"].get("Code") {
+			attrs("code", c.get("attrs"), &mut at);
+			for i in c["insns"].as_array().map(|a| a.as_slice()).unwrap_or(&[]) {
+				if let Some(o) = i["op"].as_str() { if !ops.contains(o) { ops.insert(o.to_string()); } }
+			}
+		}
+	}
+	json!({"ops": ops, "attrs": at})
+}
+
+fn hash(v: &Value) -> String {
+	let mut h = std::collections::hash_map::DefaultHasher::new();
+	v.to_string().hash(&mut h);
+	format!("{:016x}", h.finish())
+}
+
+fn exec_class(v: &Value) -> Result<Value> {
+	let id = v["id"].as_str().context("id")?;
+	let enc = v["enc"].as_str().context("enc")?;
+	let Some(bytes) = class_bytes(id, enc)? else { return Ok(json!({"skipped": true})); };
+	let parsed = parse_class(&bytes).map_err(|e| anyhow::anyhow!("C01: cfkit rejects {id}[{enc}]: {e}"))?;
+	let reference = &parsed.facts;
+	let mut obs = Vec::new();
+	observe(reference, &mut obs);
+	for key in ["fields", "methods"] {
+		if reference[key].as_array().map_or(false, |l| l.iter().any(|m| m["name"] == json!(""))) { obs.push("empty-member-name".into()); }
+	}
+	obs.sort();
+	obs.dedup();
+	let dup = obs.iter().any(|o| o == "duplicate-attribute");
+
+	let (ok, err, panic, duke_facts) = match read_duke(&bytes) {
+		Ok(Ok(tree)) => (true, String::new(), false, project(&tree)),
+		Ok(Err(e)) => (false, normalise_message(&e), false, Value::Null),
+		Err(p) => (false, normalise_message(&p), true, Value::Null),
+	};
+
+	let proj_error = duke_facts.get("proj_error").map(s_str).unwrap_or_default();
+	let ok_tree = ok && proj_error.is_empty();
+	let mut diffs: Vec<Value> = Vec::new();
+	if ok_tree {
+		for d in duke_diff::diff(reference, &duke_facts, READ_KINDS) {
+			let e = match (small_int(&d.expected), small_int(&d.got)) {
+				(Some(a), Some(b)) => json!([d.gpath, d.kind, "int", a, b]),
+				_ => json!([d.gpath, d.kind, "", 0, 0]),
+			};
+			if !diffs.contains(&e) { diffs.push(e); }
+		}
+	}
+
+	let mut methods = Vec::new();
+	if !dup {
+		let pool = PoolView::new(&parsed.spans, &bytes);
+		for lay in parsed.layout.as_array().map(|l| l.as_slice()).unwrap_or(&[]) {
+			let m = lay["method"].as_u64().unwrap_or(0) as usize;
+			let decl = &reference["methods"][m];
+			let init = cfkit::facts::initial_locals(&reference["this"], decl["access"].as_u64().unwrap_or(0), &decl["name"], &decl["desc"]).unwrap_or_default();
+			let raw = raw_method(m, lay, &parsed.spans, &bytes, &pool, Value::Array(init.iter().map(vt_wire).collect()))?;
+			let duke_pos = if ok_tree { pos_code(duke_facts.get("methods").and_then(|l| l.get(m)).and_then(|x| x.get("attrs")).and_then(|a| a.get("Code"))) } else { pos_code(None) };
+			methods.push(json!({"m": m, "raw": raw, "duke": duke_pos}));
+		}
+	}
+	Ok(json!({
+		"ok": ok, "err": err, "panic": panic, "version": reference["version"], "obs": obs,
+		"ref_hash": hash(reference), "duke_hash": if ok { hash(&duke_facts) } else { String::new() },
+		"proj_error": proj_error,
+		"diffs": diffs, "methods": methods, "cover": cover(reference),
+	}))
+}
+
+// ---------------------------------------------------------------------------------------------
+// ids
+
+struct Lcg(u64);
+impl Lcg {
+	fn next(&mut self) -> u64 { self.0 = self.0.wrapping_mul(6364136223846793005).wrapping_add(1442695040888963407); self.0 >> 33 }
+}
+
+/// All samples under all standard encodings (plus the `~adapted` variants), then corpus classes: up to 300 seeded picks
+/// of compiled classes (two thirds as compiled, one third re-assembled under a standard encoding) when n is small (quick),
+/// otherwise every corpus and JDK class as is plus re-assembled ones until n is reached.
+pub fn gen(seed: u64, n: usize) -> Result<Vec<Value>> {
+	let mut out = Vec::new();
+	let encs: Vec<&'static str> = standard_encodings().into_iter().map(|(n, _)| n).collect();
+	for (name, f) in samples() {
+		for e in &encs { out.push(json!({"op": "class", "id": format!("sample/{name}"), "enc": e})); }
+		if &adapted(f) != f {
+			for e in &encs { out.push(json!({"op": "class", "id": format!("sample/{name}~adapted"), "enc": e})); }
+		}
+	}
+	let mut ids: Vec<&String> = corpus().keys().collect();
+	ids.sort();
+	let mut r = Lcg(seed ^ 0xC01);
+	let room = n.saturating_sub(out.len());
+	if room <= 300 {
+		let compiled: Vec<&&String> = ids.iter().filter(|i| i.starts_with("corpus/")).collect();
+		for k in 0..room {
+			let id = compiled[(r.next() as usize) % compiled.len()];
+			let enc = if k % 3 == 2 { encs[1 + (r.next() as usize) % (encs.len() - 1)] } else { "file" };
+			out.push(json!({"op": "class", "id": id, "enc": enc}));
+		}
+	} else {
+		for id in &ids { out.push(json!({"op": "class", "id": id, "enc": "file"})); }
+		let mut k = 0usize;
+		'outer: for round in 0..encs.len() - 1 {
+			for id in &ids {
+				if out.len() >= n { break 'outer; }
+				out.push(json!({"op": "class", "id": id, "enc": encs[1 + (k + round + (seed as usize)) % (encs.len() - 1)]}));
+				k += 1;
+			}
+		}
+	}
+	out.truncate(n.max(1));
+	Ok(out)
+}
